@@ -100,6 +100,22 @@ theorem isSep_append (c : Bool) (a b : List GCh) : isSep c (a ++ b) = (isSep c a
     · cases x <;> simp [isSep, cmtAfter, ih] <;> rfl
     · simp [isSep, cmtAfter, ih]
 
+/-- separators stay separators when the text starts inside a comment -/
+theorem isSep_true_of_false {S : List GCh} (h : isSep false S = true) : isSep true S = true := by
+  induction S with
+  | nil => rfl
+  | cons x xs ih =>
+    cases x <;> simp [isSep] at h ⊢
+    · exact ih h
+    · exact h
+    · exact ih h
+    · exact h
+
+theorem isSep_of_false (c : Bool) {S : List GCh} (h : isSep false S = true) : isSep c S = true := by
+  cases c
+  · exact h
+  · exact isSep_true_of_false h
+
 /-- separators read from "no pending lexeme" -/
 theorem sep_steps {c : Bool} {S : List GCh} (h : isSep c S = true) : Steps .none c S [] .none (cmtAfter c S) := by
   induction S generalizing c with
